@@ -71,7 +71,7 @@ theorem strKeys_str (s : String) : strKeys (.str s) = true := by simp [strKeys]
 /-- soundness of `_check_type` -/
 theorem checkType_sound (O : Oracle) (ll lk : Bool) (t : Ty) (v w : Val)
     (hl : ll = false → litStrOnly t = true) (hk : lk = false → strKeys (parseValueOrConfig O v) = true)
-    (h : checkType O t v = .ok w) : confL ll lk t w = true := by
+    (h : checkType O t v = .ok w) : confL O.rnumOk ll lk t w = true := by
   rw [checkType_eq] at h
   cases ha : adapt O false (origOf v) t (parseValueOrConfig O v) with
   | ok w' =>
@@ -198,8 +198,8 @@ theorem checkTypeD_result (O : Oracle) (t : Ty) (d : Val) (v w : Val) (h : check
 /-- soundness with a default: when the default itself conforms, every result conforms -/
 theorem checkTypeD_sound (O : Oracle) (ll lk : Bool) (t : Ty) (d v w : Val)
     (hl : ll = false → litStrOnly t = true) (hk : lk = false → strKeys (parseValueOrConfig O v) = true)
-    (hd : confL ll lk t d = true)
-    (h : checkTypeD O t (some d) v = .ok w) : confL ll lk t w = true := by
+    (hd : confL O.rnumOk ll lk t d = true)
+    (h : checkTypeD O t (some d) v = .ok w) : confL O.rnumOk ll lk t w = true := by
   rcases checkTypeD_result O t d v w h with ⟨orig, val, ha⟩ | ⟨s, _, rfl, rfl⟩
   · -- from the adapter: as without a default
     unfold checkTypeD at h
@@ -254,8 +254,8 @@ theorem pyEq_sameKind {v d : Val} (hk : noKindConfusion v d = true) (he : pyEq v
     conforms and the value is of the default's own kind -/
 theorem adaptD_sound (O : Oracle) (ll lk : Bool) (t : Ty) (orig : Option String) (d v w : Val)
     (hl : ll = false → litStrOnly t = true) (hk : lk = false → strKeys v = true)
-    (hd : confL ll lk t d = true) (hn : isSBIF v = true → pyEq v d = true → noKindConfusion v d = true)
-    (h : adaptD O false orig (some d) t v = .ok w) : confL ll lk t w = true := by
+    (hd : confL O.rnumOk ll lk t d = true) (hn : isSBIF v = true → pyEq v d = true → noKindConfusion v d = true)
+    (h : adaptD O false orig (some d) t v = .ok w) : confL O.rnumOk ll lk t w = true := by
   unfold adaptD at h
   simp only at h
   split at h
